@@ -66,6 +66,9 @@ class IntSet:
 
         return " U ".join(f"[{f(a)}, {f(b)}]" for a, b in self.ivs) or "{}"
 
+    def contains(self, v: int) -> bool:
+        return any(lo <= v <= hi for lo, hi in self.ivs)
+
     def is_single(self) -> bool:
         return len(self.ivs) == 1
 
